@@ -252,6 +252,11 @@ func makeAccumulatorFunc(expr parser.ItemType) (newAccumulatorFunc, error) {
 					delta := v - (mean + cMean)
 					mean, cMean = function.KahanSumInc(delta/count, mean, cMean)
 					aux, cAux = function.KahanSumInc(delta*(v-(mean+cMean)), aux, cAux)
+					if math.IsInf(aux, 0) {
+						// Same as the Prometheus engine: once the sum has overflowed the
+						// result is that infinity, there is nothing left to compensate.
+						cAux = 0
+					}
 				},
 				ValueFunc: func() float64 { return math.Sqrt((aux + cAux) / count) },
 				HasValue:  func() bool { return hasValue },
@@ -284,6 +289,11 @@ func makeAccumulatorFunc(expr parser.ItemType) (newAccumulatorFunc, error) {
 					delta := v - (mean + cMean)
 					mean, cMean = function.KahanSumInc(delta/count, mean, cMean)
 					aux, cAux = function.KahanSumInc(delta*(v-(mean+cMean)), aux, cAux)
+					if math.IsInf(aux, 0) {
+						// Same as the Prometheus engine: once the sum has overflowed the
+						// result is that infinity, there is nothing left to compensate.
+						cAux = 0
+					}
 				},
 				ValueFunc: func() float64 { return (aux + cAux) / count },
 				HasValue:  func() bool { return hasValue },
